@@ -1,5 +1,6 @@
 /- C09 — property theorems (part B: redirects; part A: admission). -/
 import TornadoModel.C09.Lemmas
+import TornadoModel.C09.Admission
 namespace TornadoModel.C09
 open TornadoModel.C06
 
@@ -153,4 +154,69 @@ theorem cross_origin_of_differs {α : Type} (hostport : Str → α) (hp : Hop)
     simp [this]
 
 
+/-! ### admission -/
+
+/-- **active_le_max**: after any sequence of fetches, connection outcomes, responses, redirects and timer firings the
+    number of requests in progress is at most `max_clients`. -/
+theorem active_le_max (mx : Nat) (ops : List Op) : (run (init mx) ops).1.active.length ≤ mx := by
+  have h := run_bounded ops (init mx) (by simp [Bounded, init])
+  have h1 := h.1
+  rw [Bounded, h.2] at h1
+  exact h1
+
+/-- **fifo_start**: the keys whose connections are started, in the order they are started, form a subsequence of the
+    keys in submission order (a request may leave the queue by timing out, never by overtaking). -/
+theorem fifo_start (mx : Nat) (ops : List Op) : (starts (run (init mx) ops).2).Sublist (submitted ops) := by
+  simpa [init] using run_fifo ops (init mx)
+
+/-- the executable check used on the implementation's traces agrees with `List.Sublist` -/
+theorem isSubseq_iff (a b : List Nat) : Spec.isSubseq a b = true ↔ a.Sublist b := by
+  induction b generalizing a with
+  | nil => cases a <;> simp [Spec.isSubseq]
+  | cons y ys ih =>
+    cases a with
+    | nil => simp [Spec.isSubseq]
+    | cons x xs =>
+      simp only [Spec.isSubseq]
+      split
+      · rename_i h; subst h; rw [ih]; exact ⟨fun h => h.cons_cons _, fun h => List.Sublist.of_cons_cons h⟩
+      · rename_i h
+        rw [ih]
+        constructor
+        · exact fun hs => hs.cons _
+        · intro hs
+          cases hs with
+          | cons _ h' => exact h'
+          | cons_cons _ h' => exact absurd rfl h
+
+/-- non-vacuity: with max_clients = 1, three fetches queue up; the first fails to connect, the second times out in the
+    queue (T = 2 ticks) while the third is started after the first is released. -/
+example : starts (run (init 1) [.fetch 0 50, .fetch 1 2, .fetch 2 60, .advance 5, .connFail 0]).2 = [0, 2] := by decide
+example : (run (init 1) [.fetch 0 50, .fetch 1 2, .fetch 2 60, .advance 5, .connFail 0]).1.active = [2] := by decide
+example : completions (run (init 1) [.fetch 0 50, .fetch 1 2, .fetch 2 60, .advance 5, .connFail 0]).2 = [1, 0] := by decide
+
+/-- stretch (tie only): every submitted key leaves the system through exactly one completion. -/
+def complete_exactly_once_goal : Prop :=
+  ∀ (mx : Nat) (ops : List Op), (submitted ops).Nodup → 0 < mx →
+    (∀ k T, Op.fetch k T ∈ ops → 0 < T) →
+    let evs := (run (init mx) (ops ++ [.advance 1000000000])).2
+    (completions evs).Nodup
+
+/-- non-vacuity for the redirect theorems: a POST with a two-valued Cookie and an Authorization header, redirected by a
+    303 to another host: followed, becomes GET, and nothing credential-like survives. -/
+def exReq : Req :=
+  { method := mPOST, hasBody := true, url := str "http://a.test/", authUser := true, maxRedirects := 2, follow := true,
+    decompress := false,
+    headers := (C06.run C06.empty [.add (str "Cookie") (str "a=1"), .add (str "cookie") (str "b=2"),
+      .set (str "Authorization") (str "Bearer t"), .set (str "Host") (str "a.test")]).1 }
+def exHop : Hop :=
+  { code := 303, location := some (str "http://u:p@b.test/x"), origScheme := str "http", origNetloc := str "a.test",
+    newScheme := str "http", newNetloc := str "u:p@b.test", joined := str "http://u:p@b.test/x",
+    normalized := str "http://u:p@b.test/x", stripped := str "http://b.test/x" }
+example : ∃ r', rewrite exReq exHop = .follow r' ∧ crossOrigin exHop = true ∧ r'.url = str "http://b.test/x" ∧
+    r'.method = mGET ∧ getAll r'.headers = [] := by
+  refine ⟨_, rfl, ?_⟩
+  decide
+
 end TornadoModel.C09
+
